@@ -250,6 +250,113 @@ fn run(ctx: &mut Ctx) {
             },
         );
     }
+    // framebuffer type bytes through the boot information's getter: one tag, and two tags of which the first decides
+    ctx.bound("framebuffer_getter", "all 256 type bytes on the only / on the first of two framebuffer tags (the second one indexed, RGB or text) through BootInformation::framebuffer_tag(): bytes 0..=2 give the known type of that tag, every other byte an error carrying the byte");
+    {
+        let garena = Arena::new(2);
+        for b in 0..=255u8 {
+            for second in 0..4u8 {
+                ctx.leaf(
+                    || J::obj().set("framebuffer_type_byte", b).set("second_framebuffer_tag", ["none", "indexed", "RGB", "text"][second as usize]),
+                    |ctx| {
+                        let mut first = bi::enc_framebuffer(0xFD00_0000, 4096, 1024, 768, 32, 1, &[16, 8, 8, 8, 0, 8]);
+                        first[29] = b;
+                        let mut tags = vec![first];
+                        match second {
+                            1 => tags.push(bi::enc_framebuffer(0xA_0000, 320, 320, 200, 8, 0, &bi::enc_palette(&[(1, 2, 3)]))),
+                            2 => tags.push(bi::enc_framebuffer(0xE000_0000, 3200, 800, 600, 32, 1, &[16, 8, 8, 8, 0, 8])),
+                            3 => tags.push(bi::enc_framebuffer(0xB_8000, 160, 80, 25, 16, 2, &[])),
+                            _ => {}
+                        }
+                        tags.push(bi::end_tag());
+                        let region = bi::region(&tags, &bi::zero_pad);
+                        garena.fill(arena::FILL_A);
+                        let p = garena.place_right(&region);
+                        ctx.state_direct();
+                        ctx.nontrivial();
+                        let r = ctx.call("framebuffer_tag", || {
+                            let bi_ = unsafe { multiboot2::BootInformation::load(p as *const multiboot2::BootInformationHeader) }.unwrap();
+                            match bi_.framebuffer_tag() {
+                                None => (9u32, 0usize, String::new()),
+                                Some(Err(e)) => (3, 0, format!("{}", e)),
+                                Some(Ok(t)) => {
+                                    let off = t as *const FramebufferTag as *const u8 as usize - p as usize;
+                                    match t.buffer_type() {
+                                        Ok(FramebufferType::Indexed { .. }) => (0, off, String::new()),
+                                        Ok(FramebufferType::RGB { .. }) => (1, off, String::new()),
+                                        Ok(FramebufferType::Text) => (2, off, String::new()),
+                                        Err(e) => (4, off, format!("{}", e)),
+                                    }
+                                }
+                            }
+                        });
+                        match r {
+                            // an indexed first tag whose stored colour count does not fit may be refused
+                            Out::Panic if b == 0 => ctx.class("fbgetter:refused"),
+                            Out::Panic => ctx.violation("c20/framebuffer-getter/panic", || format!("framebuffer_tag() / buffer_type() panicked for type byte {}", b)),
+                            Out::Val((class, off, text)) => {
+                                ctx.ob("fbgetter.class", class as u64);
+                                let ok = if b <= 2 { class == b as u32 && off == 8 } else { class == 3 && text.contains(&format!("{}", b)) };
+                                if !ok {
+                                    ctx.violation(&format!("c20/framebuffer-getter/{}", if b <= 2 { "known" } else { "unknown-reported-as-known" }), || format!("first framebuffer tag has type byte {}: the getter reports class {} ({}) at offset {} {:?}", b, class, ["Indexed", "RGB", "Text", "error from the getter", "error from buffer_type", "", "", "", "", "nothing"][class as usize], off, text));
+                                } else {
+                                    ctx.class(if class == 3 { "fbgetter:unknown" } else { "fbgetter:known" });
+                                }
+                            }
+                        }
+                    },
+                );
+            }
+        }
+    }
+    // ELF tables of three headers: classification does not depend on which other types the table holds
+    const ELF_DICT: [u32; 24] = [0, 1, 2, 3, 4, 5, 6, 7, 8, 9, 10, 11, 12, 14, 15, 16, 18, 0x5FFF_FFFF, 0x6000_0000, 0x6FFF_FFF6, 0x6FFF_FFFF, 0x7000_0000, 0x7FFF_FFFF, 0x8000_0000];
+    ctx.bound("elf_tables", "tables [x][string table][y] and [x][y][y] for every pair x, y of 24 raw types (0..=12, 14..=16, 18 and the boundaries of the environment- and processor-specific ranges), both entry layouts: the iterator yields exactly the headers with a documented in-use classification, each with its own class and raw type");
+    for entsize in [64usize, 40] {
+        for &x in ELF_DICT.iter() {
+            for &y in ELF_DICT.iter() {
+                for shape in 0..2 {
+                    let types = if shape == 0 { [x, 3, y] } else { [x, y, y] };
+                    ctx.leaf(
+                        || J::obj().set("elf_table_types", J::Arr(types.iter().map(|t| J::from(*t)).collect())).set("entry_size", entsize),
+                        |ctx| {
+                            ctx.state_direct();
+                            ctx.nontrivial();
+                            let mut buf = Aligned::<216>([0u8; 216]);
+                            let size = 20 + 3 * entsize;
+                            for i in 20..size {
+                                buf.0[i] = marker(i, 3);
+                            }
+                            wr32(&mut buf.0, 0, 9);
+                            wr32(&mut buf.0, 4, size as u32);
+                            wr32(&mut buf.0, 8, 3);
+                            wr32(&mut buf.0, 12, entsize as u32);
+                            wr32(&mut buf.0, 16, 1);
+                            for (k, t) in types.iter().enumerate() {
+                                wr32(&mut buf.0, 20 + k * entsize + 4, *t);
+                            }
+                            let r = ctx.call("sections", || {
+                                let tag = DynSizedStructure::<TagHeader>::ref_from_slice(&buf.0[..round8(size)]).unwrap().cast::<ElfSectionsTag>();
+                                tag.sections().map(|s| (s.section_type(), s.section_type_raw())).collect::<Vec<_>>()
+                            });
+                            let want: Vec<(ElfSectionType, u32)> = types.iter().filter_map(|t| expected_elf(*t).map(|e| (e, *t))).collect();
+                            match r {
+                                Out::Panic => ctx.violation("c20/elf-tables/panic", || format!("sections() panicked on a table of types {:x?}", types)),
+                                Out::Val(got) => {
+                                    ctx.ob("elf.table.n", got.len() as u64);
+                                    if got != want {
+                                        ctx.violation("c20/elf-tables/classification", || format!("table of raw types {:x?} (entry size {}): iterator gives {:x?}, documented {:x?}", types, entsize, got, want));
+                                    } else {
+                                        ctx.class("elf-table:classified");
+                                    }
+                                }
+                            }
+                        },
+                    );
+                }
+            }
+        }
+    }
     // MAGIC constants
     ctx.leaf(
         || J::obj().set("constants", "MAGIC"),
